@@ -23,6 +23,7 @@ type specState struct {
 	oi      int
 	ranTest map[string]int // pos -> number of test invocations
 	wantLog bool
+	ctxStr  string // expected rendering of ctx.Get for the probe keys
 }
 
 func (st *specState) add(path, code, dtype string) {
@@ -63,7 +64,7 @@ func (st *specState) logCall(who string, arg reflect.Value, isPtr bool) {
 	if !st.wantLog {
 		return
 	}
-	st.log = append(st.log, fmt.Sprintf("%s(arg=%s ptr=%v nil=false ctx=)", who, canonValue(arg), isPtr))
+	st.log = append(st.log, fmt.Sprintf("%s(arg=%s ptr=%v nil=false ctx=%s)", who, canonValue(arg), isPtr, st.ctxStr))
 }
 
 func parseAbsentSpec(data any) bool {
